@@ -630,6 +630,17 @@ def mutants():
     add('uncovered-target', 'SELECT a, b FROM #t GROUP BY a')
     add('uncovered-target', 'SELECT a + 1, count(*) FROM #t GROUP BY a')
     add('uncovered-order', 'SELECT a, count(*) FROM #t GROUP BY a ORDER BY b')
+    # aggregate-only targets, no GROUP BY (group_indexes == []): a non-aggregate ORDER BY key is an uncovered hidden target
+    add('uncovered-order-all-aggregates', 'SELECT count(x) FROM #t ORDER BY b')
+    add('uncovered-order-all-aggregates', 'SELECT count(*), sum(a) AS s FROM #t ORDER BY a + 1 DESC')
+    add('uncovered-order-all-aggregates', 'SELECT count(*) ORDER BY account')
+    add('uncovered-order-all-aggregates', 'SELECT sum(number) AS total, count(*) WHERE account ~ "Food" ORDER BY year(date)')
+    add('uncovered-order-all-aggregates', 'SELECT max(a) FROM #t WHERE a > 0 ORDER BY 1, length(b)')
+    add('uncovered-order-all-aggregates', 'SELECT * FROM (SELECT count(x) AS n FROM #t ORDER BY b)')
+    add('uncovered-order-all-aggregates', 'SELECT a FROM #t WHERE a IN (SELECT count(x) FROM #t ORDER BY b)')
+    add('uncovered-order-all-aggregates', 'SELECT k FROM #u WHERE k IN (SELECT max(a) FROM #t ORDER BY d DESC, 1)')
+    add('order-all-aggregates-ok', 'SELECT count(x), sum(a) AS s FROM #t ORDER BY s, 1, count(x), max(d)', expect='accept')
+    add('order-all-aggregates-ok', 'SELECT count(x) FROM #t ORDER BY 2020-01-01 - 2020-01-01', expect='any')
     add('covered-ok', 'SELECT a + 1, count(*) FROM #t GROUP BY a + 1 ORDER BY a + 1', expect='accept')
     add('covered-ok', 'SELECT a, count(*) FROM #t GROUP BY a, b ORDER BY b', expect='accept')
     # positions
@@ -1134,6 +1145,48 @@ def describe_e2e(res, msg):
 
 # ------------------------------------------------------------------------------------------------
 
+def uncovered_order_mutants(g, rng, n):
+    """Random aggregate queries (all-aggregate targets, implicit or explicit grouping) whose ORDER BY gets one extra
+    non-aggregate key that is neither a grouping key nor a target: an uncovered hidden target, by construction.
+    One third of them wrapped as FROM subquery, one third as IN subquery."""
+    out = []
+    tries = 0
+    while len(out) < n and tries < n * 20:
+        tries += 1
+        g.use_params = None
+        g.params = []
+        st = g.select(rng.choice([1, 2]), tbl=g.tables()[0])
+        shape = st['shape']
+        if shape not in ('allagg', 'implicit', 'group') or st['pivot'] or st['distinct']:
+            continue
+        if shape != 'allagg' and rng.random() < 0.7:        # half of the family: aggregate-only targets, no GROUP BY
+            continue
+        taken = {x.text for x, _ in st['targets']} | {a for _, a in st['targets'] if a} | set(st['group'] or [])
+        cols = [c for c, t in st['tbl'].cols if c not in taken and t in ('int', 'str', 'date', 'Decimal', 'bool')
+                and not any(c in k for k in (st['group'] or [])) and not any(x.text == c for x, _ in st['targets'])]
+        if shape != 'allagg':
+            cols = [c for c in cols if not any(c in x.text for x, _ in st['targets'] if not x.agg)]
+        if not cols:
+            continue
+        c = rng.choice(cols)
+        key = rng.choice([c, c, f'({c} IS NULL)', f'coalesce({c})'])
+        st['order'] = st['order'] + [key + rng.choice(['', ' DESC'])]
+        rng.shuffle(st['order'])
+        st['limit'] = None
+        text = c05gen.render(st)
+        wrap = rng.choice(['plain', 'from', 'in', 'in'])
+        if wrap == 'from':
+            st['targets'] = [(x, a or f'w{i}') for i, (x, a) in enumerate(st['targets'])]
+            text = f'SELECT * FROM ({c05gen.render(st)})'
+        elif wrap == 'in':
+            if len(st['targets']) != 1:
+                wrap = 'plain'
+            else:
+                text = f'SELECT k FROM #u WHERE k IN ({text})'
+        out.append(dict(stream='mutant', rule=f'uncovered-order-random:{shape}:{wrap}', text=text, params=None, expect='reject'))
+    return out
+
+
 def build_cases(tier, rng):
     e = env()
     g = Gen(rng, e['reg'])
@@ -1146,6 +1199,7 @@ def build_cases(tier, rng):
         text, params, shape = g.statement(depth)
         cases.append(dict(stream='valid', rule='valid:' + shape.split(':')[0], text=text, params=params, expect='accept'))
         valid_texts.append((text, params))
+    cases.extend(uncovered_order_mutants(g, rng, 60 if tier == 'quick' else 600))
     for m in mutants():
         m['stream'] = 'mutant'
         cases.append(m)
